@@ -1,1 +1,175 @@
+(* C11 - property statements only. Every theorem is closed by a lemma of the Lemmas*
+   files and followed by Print Assumptions. Roots are numbers below n (the number of
+   root objects); `deps` is DependsOn, `regs` the registration order. *)
+From Coq Require Import List Bool Arith Permutation Sorted.
+Import ListNotations.
 From Eval Require Import Model Lemmas.
+
+(* ---------------------------------------------------------------- Roots() *)
+
+(* Termination of sortDependenciesR on every graph, cyclic or not: with depth
+   2n+2 the depth-fuelled search never runs out of fuel. *)
+Theorem depth_fuel_sufficient n df root :
+  (forall x d, In d (df x) -> d < n) -> root < n ->
+  exists s, sort_deps (depth_fuel n) df root = Some s.
+Proof. exact (depth_fuel_sufficient_l n df root). Qed.
+Print Assumptions depth_fuel_sufficient.
+
+Theorem roots_never_out_of_fuel n deps regs :
+  (forall x d, In d (deps x) -> d < n) -> (forall r, In r regs -> r < n) ->
+  roots n deps regs <> OutOfFuel.
+Proof. exact (roots_no_out_of_fuel n deps regs). Qed.
+Print Assumptions roots_never_out_of_fuel.
+
+(* The flattened dependency list of a registered root holds exactly the roots
+   reachable from it. *)
+Theorem roots_complete n deps regs :
+  (forall x d, In d (deps x) -> d < n) -> (forall r, In r regs -> r < n) ->
+  exists tbl, flat_table (depth_fuel n) deps regs = Some tbl /\
+    forall r, In r regs -> forall y, In y (lookup tbl r) <-> reach deps r y.
+Proof. exact (roots_complete_spec n deps regs). Qed.
+Print Assumptions roots_complete.
+
+(* A cycle is reported exactly when a registered root depends on itself or two
+   distinct registered roots reach each other. *)
+Theorem roots_cycle_iff n deps regs :
+  (forall x d, In d (deps x) -> d < n) -> (forall r, In r regs -> r < n) ->
+  (roots n deps regs = Cycle <-> cyclic deps regs).
+Proof. exact (roots_cycle_spec n deps regs). Qed.
+Print Assumptions roots_cycle_iff.
+
+(* Without such a cycle Roots() succeeds; the result has no duplicates, contains
+   every registered root and only roots reachable from them, every root a registered
+   root depends on (directly or not) comes strictly before it, and when every
+   dependency is registered the result is a permutation of the registered roots. *)
+Theorem roots_topological n deps regs :
+  (forall x d, In d (deps x) -> d < n) -> (forall r, In r regs -> r < n) ->
+  ~ cyclic deps regs ->
+  exists l, roots n deps regs = Ok l /\ NoDup l /\ incl regs l /\
+    (forall x, In x l -> exists r, In r regs /\ reach deps r x) /\
+    (forall u v, In u regs -> reach deps u v -> u <> v -> before l v u) /\
+    (closed_under deps regs -> NoDup regs -> Permutation regs l).
+Proof. exact (roots_topological_l n deps regs). Qed.
+Print Assumptions roots_topological.
+
+(* Limit of the cycle check (outside the property's envelope, where every root is
+   registered): a cycle through a root that is only a dependency is not reported. *)
+Theorem cycle_through_unregistered_root_refuted :
+  exists n deps regs l, roots n deps regs = Ok l /\
+    exists u v, In u regs /\ u <> v /\ reach deps u v /\ reach deps v u.
+Proof.
+  exists 2, (fun r => match r with 0 => [1] | 1 => [0] | _ => [] end), [0], [1; 0].
+  destruct unregistered_cycle_witness as (A & B & C).
+  split; [exact A|]. exists 0, 1. repeat split; [now left|discriminate|exact B|exact C].
+Qed.
+Print Assumptions cycle_through_unregistered_root_refuted.
+
+(* ---------------------------------------------------------------- RunDSL() *)
+
+(* Phase barrier, for every program (any number of roots, sets and expressions,
+   expressions appended and roots registered while executing): the callback trace is
+   sorted by phase - all Exec events, then all Prepare, all Validate, all Finalize. *)
+Theorem phase_barrier p : StronglySorted phase_le (fst (run_dsl p)).
+Proof. exact (phase_barrier_l p). Qed.
+Print Assumptions phase_barrier.
+
+Theorem phase_blocks p :
+  exists te tp tv tf, fst (run_dsl p) = te ++ tp ++ tv ++ tf /\
+    only Exec te /\ only Prepare tp /\ only Validate tv /\ only Finalize tf.
+Proof. exact (shape_blocks _ _ (run_shape p)). Qed.
+Print Assumptions phase_blocks.
+
+(* Errors reported while executing: no later-phase callback runs, and all of them are
+   returned, in order (unless RunDSL left the loop with a Roots() error). *)
+Theorem errors_stop_later_phases p :
+  reports (fst (run_dsl p)) <> [] ->
+  only Exec (fst (run_dsl p)) /\
+  (snd (run_dsl p) = Errs (map XErr (reports (fst (run_dsl p)))) \/ loop_stop (snd (run_dsl p))).
+Proof. exact (shape_exec_errors _ _ (run_shape p)). Qed.
+Print Assumptions errors_stop_later_phases.
+
+(* Failed validations: the failures of all sets of all roots are returned together,
+   one entry per set, nothing was reported while executing, no Finalize callback runs. *)
+Theorem validation_errors_returned_together p :
+  fails (fst (run_dsl p)) <> [] ->
+  exists es, snd (run_dsl p) = Errs es /\ flat_errs es = fails (fst (run_dsl p)) /\
+    Forall is_verr es /\ reports (fst (run_dsl p)) = [] /\
+    forall e, In e (fst (run_dsl p)) -> ev_phase e <> Finalize.
+Proof. exact (shape_validation_errors _ _ (run_shape p)). Qed.
+Print Assumptions validation_errors_returned_together.
+
+Theorem finalize_only_on_success p :
+  (exists e, In e (fst (run_dsl p)) /\ ev_phase e = Finalize) -> snd (run_dsl p) = Done.
+Proof. exact (shape_finalize _ _ (run_shape p)). Qed.
+Print Assumptions finalize_only_on_success.
+
+Theorem success_means_no_errors p :
+  snd (run_dsl p) = Done -> reports (fst (run_dsl p)) = [] /\ fails (fst (run_dsl p)) = [].
+Proof. exact (shape_done _ _ (run_shape p)). Qed.
+Print Assumptions success_means_no_errors.
+
+Theorem run_never_stuck p : snd (run_dsl p) <> Stuck.
+Proof. exact (shape_not_stuck _ _ (run_shape p)). Qed.
+Print Assumptions run_never_stuck.
+
+(* RunDSL leaves the execution loop early only with a cycle error, the too-many-roots
+   error, or nil when no root is registered (and then nothing ran). *)
+Theorem loop_exit p st o : exec_phase p = XStop st o ->
+  run_dsl p = (s_trace st, o) /\ (o = CycleErr \/ o = TooManyRoots \/ (o = Done /\ s_trace st = [])).
+Proof. exact (exec_phase_stop_l p st o). Qed.
+Print Assumptions loop_exit.
+
+(* Roots registered while executing: when the loop ends normally every registered root
+   (s_regs holds the late ones too) is among the processed roots and every DSL
+   present in its sets from the start has run. *)
+Theorem late_roots_executed p rs st : exec_phase p = XDone rs st ->
+  forall q, In q (s_regs st) ->
+    In q rs /\
+    forall k e, In e (nth k (r_sets (rootdef_of p q)) []) -> e_src e = true ->
+      In (exec_ev q e) (fst (run_dsl p)).
+Proof. exact (late_roots_l p rs st). Qed.
+Print Assumptions late_roots_executed.
+
+(* Full statement "every expression present when the execute phase ends has had its DSL
+   run exactly once" is false of the faithful model: *)
+Theorem appended_current_set_refuted :
+  exists p i, not_executed_but_finalized p i.
+Proof. exists witness_current, 2. exact witness_current_l. Qed.
+Print Assumptions appended_current_set_refuted.
+
+Theorem appended_earlier_set_refuted :
+  exists p i, not_executed_but_finalized p i /\ p <> witness_current.
+Proof. exists witness_earlier, 3. split; [exact witness_earlier_l| discriminate]. Qed.
+Print Assumptions appended_earlier_set_refuted.
+
+(* ... and holds when every append targets a set the walker has not reached yet: the
+   DSLs that ran for a processed root are exactly the Source expressions of its final
+   sets, once each, set by set in order. *)
+Theorem appended_later_set_executed_partial p rs st :
+  program_later_ok p = true -> exec_phase p = XDone rs st ->
+  forall q, In q rs -> exec_ids q (fst (run_dsl p)) = src_ids (sets_of st q).
+Proof. exact (later_appends_l p rs st). Qed.
+Print Assumptions appended_later_set_executed_partial.
+
+(* ---------------------------------------------------------------- non-vacuity *)
+
+Example later_append_runs :
+  program_later_ok witness_later = true /\
+  exec_ids 0 (fst (run_dsl witness_later)) = [1; 3; 2] /\ snd (run_dsl witness_later) = Done.
+Proof. vm_compute. repeat split. Qed.
+
+Example late_roots_run :
+  exec_ids 1 (fst (run_dsl witness_late)) = [2] /\ exec_ids 2 (fst (run_dsl witness_late)) = [3] /\
+  snd (run_dsl witness_late) = Done.
+Proof. vm_compute. repeat split. Qed.
+
+Example diamond_order :
+  roots 4 (fun r => match r with 3 => [1; 2] | 1 => [0] | 2 => [0] | _ => [] end) [3; 2; 1; 0] = Ok [0; 2; 1; 3].
+Proof. vm_compute. reflexivity. Qed.
+
+Example self_dependency_is_a_cycle : roots 1 (fun _ => [0]) [0] = Cycle.
+Proof. vm_compute. reflexivity. Qed.
+
+Example chain_limit_witness :
+  snd (run_dsl witness_current) = Done /\ max_rounds = 101.
+Proof. vm_compute. split; reflexivity. Qed.
